@@ -348,8 +348,9 @@ func Generate(r *rand.Rand, cfg Config) *Schema {
 			mod.Files = append(mod.Files, optsFile)
 			// a second options file whose only extension is declared inside a message
 			g.nestedOpts = &File{Path: strings.ReplaceAll(optsFile.Package, ".", "/") + "/nested_opts.proto", Syntax: "proto2", Package: optsFile.Package,
-				Messages: []*Message{{Name: "OptionHolder", Comment: "OptionHolder only scopes an option.", Extends: []*Extend{{Extendee: "google.protobuf.FieldOptions",
-					Fields: []*Field{{Name: "nested_tag", Number: 50020, Label: "optional", Kind: "scalar", Type: "string", Comment: "A nested option."}}}}}}}
+				Messages: []*Message{{Name: "OptionHolder", Comment: "OptionHolder only scopes an option.",
+					Fields: []*Field{{Name: "note", Number: 1, Label: "optional", Kind: "scalar", Type: "string", Comment: "A note (every generated message has at least one field)."}}, Extends: []*Extend{{Extendee: "google.protobuf.FieldOptions",
+						Fields: []*Field{{Name: "nested_tag", Number: 50020, Label: "optional", Kind: "scalar", Type: "string", Comment: "A nested option."}}}}}}}
 			mod.Files = append(mod.Files, g.nestedOpts)
 		}
 		pkgSyntax := map[string]string{}
